@@ -48,7 +48,8 @@ class Scenario(apiworld.ApiWorld):
         if kind == "req-zone-status":
             if self.mute_gs:
                 return []
-            self.gs_sent.append(self.loop.time())
+            if not self.console.silent:          # a silent console sends nothing: no group status went out
+                self.gs_sent.append(self.loop.time())
         return answers
 
     # ---- explorer interface ----------------------------------------------------------------------
@@ -263,6 +264,18 @@ class Scenario(apiworld.ApiWorld):
                 return v
         self.mute_gs = False
         if self.console.silent:
+            # a half-open link: nothing tells the client except its own heartbeat.  Within 700 s it must have
+            # dropped the silent connection and hold a new one (the network accepts)
+            for t in self.net.conns:
+                t.fail_after = None
+            self.net.resolve_all(True)
+            silent_cids = {t.cid for t in self.net.live()}
+            L.run_until(L.time() + 700.0)
+            live = self.net.live()
+            if not live or (silent_cids and {t.cid for t in live} <= silent_cids):
+                return self._v("silent-link-replaced", f"the console has been silent for 700 s; connections held now: "
+                                                       f"{[t.cid for t in live]} (silent ones: {sorted(silent_cids)}), "
+                                                       f"pending connects: {len(self.net.pending)}")
             # the console answers again: one more loss makes the client ask afresh
             self.console.silent = False
             if self.net.live():
